@@ -119,13 +119,13 @@ Definition find_spec (c : fcase) : bool :=
   match c with
   | EndToEnd c =>
       f_query_seen c && negb (f_extra_consumed c)
-      && beq_yield (f_yield c) (map (fun m => (Some (fst m), snd m)) (f_matches c) ++ [(None, 0)])
+      && beq_yield (f_yield c) (map (fun m => (match fst m with [] => None | d => Some d end, snd m)) (f_matches c) ++ [(None, 0)])
       && forallb (correlates_b (f_q c)) (f_sent c)
   | UserOnly rs ys n =>
       beq_yield ys (map (fun m => (match fst m with [] => None | d => Some d end, snd m)) (upto_final rs))
       && (n =? lenN (upto_final rs))
   | Wrapper seen ms ys =>
-      seen && beq_yield ys (map (fun m => (Some (fst m), snd m)) ms ++ [(None, 0)])
+      seen && beq_yield ys (map (fun m => (match fst m with [] => None | d => Some d end, snd m)) ms ++ [(None, 0)])
   end.
 
 (* ---- C19: C-GET user ------------------------------------------------------------------------------- *)
